@@ -250,14 +250,21 @@ structure ServerOut (W : Type) where
   reply : Option (Reply W)
   conn : ConnFate
 
+/-- the handler reports the exception back: not a ConnectionClosedError, and a SerializeError or no
+    CommunicationError at all (the call is not oneway) -/
+def repliesTo (f : Flags) : Bool := !f.isConnClosed && (f.isSerialize || !f.isComm)
+
+/-- … and then re-raises it (the transport drops the connection): callbacks, CommunicationErrors, SecurityErrors -/
+def reraisesAfter (f : Flags) (isCallback : Bool) : Bool := isCallback || f.isComm || f.isSecurity
+
 /-- the handler of handleRequest's main try statement (512-525), for an exception `xv` that is an `Exception`
     and a call that is not oneway:  reply unless it is a ConnectionClosedError or another CommunicationError that is
     not a SerializeError; then re-raise for callbacks, CommunicationErrors and SecurityErrors. -/
 def errorPath {W : Type} (S : ServerEnv) (c : Codec W) (R : Render) (xv : Exc) (tb : Val) (isCallback : Bool) :
     ServerOut W :=
   let f := S.info xv.cls
-  let reraise := isCallback || f.isComm || f.isSecurity
-  if !f.isConnClosed && (f.isSerialize || !f.isComm) then
+  let reraise := reraisesAfter f isCallback
+  if repliesTo f then
     match serializeException c R xv tb with
     | .ok (_, w) => ⟨some ⟨true, false, w⟩, if reraise then .dropped else .active⟩
     | .error _ => ⟨none, .dropped⟩      -- the fallback could not be serialised either: the error leaves the handler
